@@ -10,9 +10,9 @@ TXN_SWITCHES = ["BugConflictGeq", "BugNoReadTracking", "BugNoCommitWait", "BugRe
                 "BugApplyBeforeDecide", "BugTrackOwnReads", "BugDoneCommitEarly"]
 
 
-def txn_cfg(clients, keys, maxtxn, maxops, on=()):
+def txn_cfg(clients, keys, maxtxn, maxops, on=(), lag=False):
     kw = dict(CLIENTS=", ".join(map(str, range(1, clients + 1))), KEYS=", ".join(map(str, range(1, keys + 1))),
-              MAXTXN=maxtxn, MAXOPS=maxops)
+              MAXTXN=maxtxn, MAXOPS=maxops, LAG=T if lag else F)
     for s in TXN_SWITCHES:
         kw[s] = T if s in on else F
     return tlc.fill("MC_Txn.cfg.tmpl", **kw)
@@ -47,7 +47,13 @@ def fam_txn(ctx):
     for bnd in bounds:
         r = ctx.model_check("Txn", txn_cfg(*bnd), timeout=3000)
         expect_ok(ctx, r, "Txn %s" % (bnd,))
+    # asynchronous watermark consumers (mark queues, WmStep, WmPublish): the same invariants
+    lag_bounds = [(2, 2, 1, 2)] if ctx.quick else [(2, 2, 1, 3), (3, 1, 1, 2), (2, 1, 2, 2)]
+    for bnd in lag_bounds:
+        r = ctx.model_check("Txn", txn_cfg(*bnd, lag=True), timeout=3000)
+        expect_ok(ctx, r, "Txn with lag %s" % (bnd,))
     ctx.cov.setdefault("model_bounds", {})["Txn(clients,keys,txns/client,ops/txn)"] = bounds
+    ctx.cov["model_bounds"]["Txn with asynchronous watermarks"] = lag_bounds
     sw = TXN_BY_PROP.get(ctx.id, TXN_SAFETY) if ctx.quick else TXN_SAFETY
 
     def one(s):
@@ -57,6 +63,13 @@ def fam_txn(ctx):
         return s, (m[0] if m else "violated")
 
     ctx.cov.setdefault("deviation_switches", {}).update(dict(ctx.par(one, sw, workers=4)))
+    if not ctx.quick:
+        def lagged(s):
+            rr = ctx.model_check("Txn", txn_cfg(2, 2, 2, 3, on=(s,), lag=True), timeout=1800, expect_violation=True, workers=4)
+            expect_violation(ctx, rr, s + " (lag)")
+            m = re.findall(r"Invariant (\w+) is violated", rr["out"])
+            return s + " (lag)", (m[0] if m else "violated")
+        ctx.cov["deviation_switches"].update(dict(ctx.par(lagged, ["BugDoneCommitEarly", "BugNoCommitWait", "BugCleanupEager"], workers=3)))
 
 
 CRASH_SWITCHES = ["BugDeleteInputsFirst", "BugNoSyncTable", "BugCreateInPlace", "BugWalSkipped", "BugTornTailFatal",
